@@ -24,7 +24,9 @@ G(r) == INSTANCE GlobalState WITH NTests <- 1, Deviations <- {}, PreChoices <- {
 Verdict(r) ==
   LET GL == G(r)!Globals
       bad == {x \in GL : r.before[x] # r.after[x]}
-      plain == bad \ G(r)!HookGlobals
+      \* GlobalState!OwnLeak for this record's ending and options
+      own == IF r.ending = "redirKbint" /\ "buffer" \notin ToSet(r.opts) THEN {"stdout"} ELSE {}
+      plain == bad \ (G(r)!HookGlobals \cup own)
       hooks == bad \cap G(r)!HookGlobals
       mid == {x \in GL : r.before[x] # r.mid[x]} \ {"warnFilters"}
   IN IF ~r.began THEN <<"NOT-BEGUN", "">>
